@@ -55,6 +55,9 @@ func checkC20(c *Ctx) {
 	cn := func(fn *ssa.Function, s string) string { return vpCanon(fn, s) }
 	_ = cn
 	c20ResizeClip(c, p, vp["Resize"])
+	c.Rule("C20-R9", "ViewPort.Resize clips the request against the parent's current size every time (no shortcut for unchanged arguments: the parent may have changed)")
+	c.Expect("C20-R9", 1)
+	checkResizeAlwaysClips(c, p, "C20-R9", vp)
 	bl := methods(blOwner)
 	if len(vp) < 15 || len(bl) < 10 {
 		c.Undecided("C20-R1", "methods", "-", fmt.Sprintf("found %d ViewPort and %d BoxLayout methods", len(vp), len(bl)))
